@@ -717,7 +717,7 @@ class C10(verif.Spec):
     prop = "C10"
     comp = "cache"
     lean_modules = ["ZvbiModel.Props.C10", "ZvbiModel.Props.C10Ttx", "ZvbiModel.Props.C10Evict", "ZvbiModel.Props.C10Hi",
-                    "ZvbiModel.Props.C10Stat"]
+                    "ZvbiModel.Props.C10Stat", "ZvbiModel.Props.C10Sim"]
     harness = "cache_harness"
     harness_link_lib = True
     harness_extra = ["-DDLIST_CONSISTENCY=1"]
@@ -735,7 +735,10 @@ class C10(verif.Spec):
                     "n_subpages and the page count per page number is unbounded on the shape as found (F17, proved witnesses); for the "
                     "repaired shape unique_key_repaired (the cache is a map) and version_bound_repaired (<= 256 cached versions per "
                     "page number) and the list form of the store refinement (aputR, MRU order) are proved; both shapes of the start look-up of _vbi_cache_foreach_page "
-                    "(fixes/C17-turn-3f7f.diff) are modelled and proved; walk order/termination are C17's")
+                    "(fixes/C17-turn-3f7f.diff) are modelled and proved; round 6 (Props/C10Sim.lean): cache_page_unref leaves the abstract map alone "
+                    "(live network, page fits the limit), no eviction between calls, wildcard look-up returns the page the previous look-up "
+                    "found (seed C10-f), Sim with the decoder model survives unref / page-type write / channel switch; "
+                    "walk order/termination are C17's")
     assumptions = ["clients pass only pointers they hold a reference on (the harness / driver enforce it: `rej handle`)",
                    "0x100 <= pgno <= 0x8FF for put / hi_subno / foreach (asserted by cache_network_page_stat; callers guarantee it)",
                    "subpage numbers and designation sets fit 16 bits; unsigned int counters do not overflow (2^32 events)",
